@@ -206,6 +206,11 @@ impl<'a> Gen<'a> {
             }
             Style::Numbers => {
                 for _ in 0..n {
+                    if !clean && wrapper_free(path) && self.rng.chance(1, 5) {
+                        // legal numbers whose order only the IEEE total order settles
+                        keys.push(self.rng.pick(&["nan", "NaN", "inf", "-inf", "-0", "-0.0", "0.0"]).to_string());
+                        continue;
+                    }
                     keys.push(self.rng.pick(NUMBERS).to_string());
                 }
             }
@@ -421,6 +426,27 @@ impl<'a> Gen<'a> {
             if k == "team_2" && self.rng.chance(2, 3) {
                 // `-` and `_` are different characters: two attributes, two values
                 b.attrs.push(("team-2".into(), "platform".into()));
+            }
+        }
+        if self.rng.chance(1, 6) {
+            // an unknown attribute whose name merely starts like a known one (or is a known name
+            // with a suffix / prefix) is just another unknown attribute
+            let (k, v) = *self.rng.pick(&[
+                ("keep-sorted-owner", "infra"),
+                ("keep-sorted-by", "desc"),
+                ("keep-sorted-formatter", "numeric"),
+                ("keep-unique-note", "("),
+                ("line-count-hint", "<0"),
+                ("line-pattern-doc", "["),
+                ("check-lua-owner", "missing.lua"),
+                ("check-ai-owner", ""),
+                ("affects-note", "no colon"),
+                ("severity-note", "fatal"),
+                ("x-keep-sorted", "sideways"),
+                ("keep-sorted_pattern", "("),
+            ]);
+            if !b.has(k) {
+                b.attrs.push((k.into(), v.into()));
             }
         }
         if self.rng.chance(1, 6) {
